@@ -17,16 +17,22 @@ def featOfJson (j : Json) : R Feat := do
     | .null => pure default
     | cj => locOfJson cj
   return { loc := ← locOfJson (← fld j "loc"), kind := ← kindOfJson (← fld j "kind"), core := core,
-           single := boolFD j "single" false, product := (strF j "product").toOption.getD "" }
+           single := boolFD j "single" false,
+           labels := { product := (strF j "product").toOption.getD "", tool := (strF j "tool").toOption.getD "",
+                       category := (strF j "category").toOption.getD "",
+                       sideloaded := boolFD j "sideloaded" false } }
 
 def areaOfJson (j : Json) : R Area := do
   return { start := ← intF j "start", «end» := ← intF j "end", kind := ← kindOfJson (← fld j "kind"),
            height := ← intF j "height", nstart := ← intF j "nstart", nend := ← intF j "nend",
-           product := ← strF j "product", group := ← intF j "group" }
+           product := ← strF j "product", group := ← intF j "group",
+           «prefix» := (strF j "prefix").toOption.getD "", category := (strF j "category").toOption.getD "",
+           tool := (strF j "tool").toOption.getD "" }
 def areaToJson (a : Area) : Json :=
   jObj [("start", toJson a.start), ("end", toJson a.end), ("kind", kindToJson a.kind),
         ("height", toJson a.height), ("nstart", toJson a.nstart), ("nend", toJson a.nend),
-        ("product", Json.str a.product), ("group", toJson a.group)]
+        ("product", Json.str a.product), ("group", toJson a.group), ("prefix", Json.str a.prefix),
+        ("category", Json.str a.category), ("tool", Json.str a.tool)]
 
 def orfOfJson (j : Json) : R Orf := do
   return { start := ← intF j "start", «end» := ← intF j "end", strand := ← intF j "strand",
@@ -39,18 +45,36 @@ def optAreas : Option (List Area) → Json
   | none => Json.null
   | some l => jArr (l.map areaToJson)
 
+def pobjOfJson (j : Json) : R PObj := do
+  return { id := ← natF j "id", feat := ← featOfJson (← fld j "feat") }
+
+def candOfJson (j : Json) : R Cand := do
+  return { feat := ← featOfJson j, members := ← listOf pobjOfJson (fldD j "members" (jArr [])) }
+
 /-- one region: model outputs, spec verdicts on the implementation's outputs, scope flags -/
 def handleRegion (j : Json) : R Json := do
   let c : Ctx := { region := ← locOfJson (← fld j "region"), L := ← intF j "L", circular := ← boolF j "circular" }
-  let r : RegionIn := { subregions := ← listOf featOfJson (← fld j "subs"),
-                        candidates := ← listOf featOfJson (← fld j "cands"),
-                        protos := ← listOf featOfJson (← fld j "protos") }
+  let subs ← listOf featOfJson (← fld j "subs")
+  let cands ← listOf candOfJson (← fld j "cands")
+  -- what `region.get_unique_protoclusters()` delivered, by identity
+  let delivered ← listOf pobjOfJson (← fld j "delivered")
+  -- the layout model runs on the delivered order; the spec on the region's children
+  let r : RegionIn := { subregions := subs, candidates := cands.map (·.feat), protos := delivered.map (·.feat) }
+  let rSpec := regionSpecIn subs cands
   let genes ← listOf locOfJson (← fld j "genes")
   let views := genes.map (geneView c)
   let impl ← fld j "impl"
-  let implAreas : Option (List Area) ← match fldD impl "areas" Json.null with
+  -- the implementation's areas as written (`to_minimal_json`), read the way a consumer reads them
+  let implAreas : Option (List Area) ← match fldD impl "areas_raw" Json.null with
     | .null => pure none
-    | aj => do pure (some (← listOf areaOfJson aj))
+    | aj => do
+      let raws ← listOf (listOf fun kv => do
+        let k ← asStr (← idx kv 0)
+        let v ← idx kv 1
+        match v with
+        | .str s => pure (k, JVal.str s)
+        | _ => pure (k, JVal.int (← asInt v))) aj
+      pure (raws.mapM readArea)
   let implOrfs : Option (List Orf) ← match fldD impl "orfs" Json.null with
     | .null => pure none
     | oj => do pure (some (← listOf orfOfJson oj))
@@ -59,10 +83,11 @@ def handleRegion (j : Json) : R Json := do
     | _, _ => none
   let ann := announced c
   let specAreas := match implAreas with
-    | none => jObj [("in_range", toJson false), ("rows_disjoint", toJson false), ("complete", toJson false)]
-    | some out => jObj [("in_range", toJson (areasInRange c out)),
+    | none => jObj [("readable", toJson false), ("in_range", toJson false), ("rows_disjoint", toJson false),
+                    ("complete", toJson false)]
+    | some out => jObj [("readable", toJson true), ("in_range", toJson (areasInRange c out)),
                         ("rows_disjoint", toJson (decide (RowsDisjoint out))),
-                        ("complete", toJson (completeB c.L r out))]
+                        ("complete", toJson (completeB c.L rSpec out))]
   let placed (orfs : List Orf) : Bool :=
     -- genes drawn whole are placed by genome distance from the region's first base
     match (parseOrfsGo none orfs) with
@@ -78,23 +103,32 @@ def handleRegion (j : Json) : R Json := do
                          ("placed", toJson (placed orfs))]
   return jObj [
     ("model", jObj [("areas", optAreas (buildAreaRows c r)),
+                    ("area_keys", match buildAreaRows c r with
+                      | none => Json.null
+                      | some l => jArr (l.map fun a => jStrs (a.toMinimalJson.map (·.1)))),
                     ("orfs", jArr ((convertCds c views).map orfToJson)),
                     ("start", toJson ann.1), ("end", toJson ann.2)]),
     ("spec", jObj [("areas", specAreas), ("orfs", specOrfs),
                    ("announced", toJson (match implAnn with | some a => announcedOk c a | none => false)),
-                   ("protos_sorted", toJson (!c.regionCrosses || sortedByKey c r.protos))]),
-    ("scope_areas", toJson (inputOK c r)),
+                   ("delivered_ok", toJson (deliveredOk cands delivered)),
+                   ("protos_sorted", toJson (sortedByKey c r.protos))]),
+    ("unique", toJson ((uniqueProtoclusters c cands).map (·.id))),
+    ("scope_areas", toJson (inputOK c rSpec && idsConsistent (cands.flatMap (·.members)))),
     ("scope_genes", toJson (regionOK c && views.all (viewOK c))),
     ("info", jObj [("extend", toJson c.extend), ("region_crosses", toJson c.regionCrosses),
-                   ("n_crossing", toJson ((toDraw r).filter (·.crosses)).length),
-                   ("n_gene_crossing", toJson (views.filter (·.crosses)).length)])]
+                   ("n_crossing", toJson ((toDraw rSpec).filter (·.crosses)).length),
+                   ("n_protos", toJson (regionProtos cands).length),
+                   ("n_tied", toJson (((regionProtos cands).filter fun p => (regionProtos cands).any fun q =>
+                      p.id != q.id && reductionKey c p.feat == reductionKey c q.feat).length)),
+                   ("n_gene_crossing", toJson (views.filter (·.crosses)).length),
+                   ("genes_loc_ok", toJson (genes.all (geneOK c)))])]
 
 /-- pack alone (unit level): rows as lists of indices into the input -/
 def handlePack (j : Json) : R Json := do
   let feats ← listOf featOfJson (← fld j "areas")
   let L ← intF j "L"
   -- tag each feature by its index through the product field
-  let tagged := feats.zipIdx.map fun (f, i) => { f with product := toString i }
+  let tagged := feats.zipIdx.map fun (f, i) => { f with labels := { product := toString i } }
   let rows := pack tagged (intFD j "length" (-1))
   let rowsJ := match rows with
     | none => Json.null
